@@ -1,8 +1,8 @@
 (* C19 — runs in one process are independent of each other.   CLAIM: PARTIAL.
    Model: theories/Isolation.v — the process-wide mutable state of Snowfakery ([proc]: unique-id
    context counter, the two date-parsing lru_caches, the memo tables of the scrambling masks,
-   the RowHistory context variable, and the plugin_options dict an embedding application may
-   share between runs) and [run : proc -> env -> recipe -> proc * outcome].
+   the RowHistory context variable) and [run : proc -> env -> recipe -> proc * outcome]; the
+   clock and the plugin_options an embedding application passes are inputs ([env]).
    Only statements here; proofs live in proofs/IsolationP.v.
 
    What is proved and what is by construction.  In the model every other piece of state
@@ -26,80 +26,82 @@ From SFV.P Require Import IsolationP.
 Import ListNotations. Open Scope Z_scope. Open Scope string_scope.
 
 (* A cached parse equals a fresh parse, in every process state reachable by running any
-   recipes (failing ones included): parse_date for every key, parse_datetimespec for every key
-   except the clock keys "now" / "today" (see C19_refuted_clock_cached). *)
+   recipes (failing ones included), for every key of both caches.  (Since fix fc3a5e8 the clock
+   keys "now" / "today" never reach the datetime cache: C19_clock_keys_not_cached.) *)
 Theorem C19_cache_coherent :
   forall (parse_d parse_dt : key -> option Z) (h : list (env * recipe)) (k : key),
     let p := after parse_d parse_dt h in
     snd (lru_call date_cache_size parse_d (p_dates p) k) = parse_d k /\
-    (is_clock_key k = false ->
-     forall e, snd (lru_call date_cache_size (dt_fun parse_dt e) (p_dts p) k) = parse_dt k).
+    snd (lru_call date_cache_size parse_dt (p_dts p) k) = parse_dt k.
 Proof. exact cache_coherent. Qed.
 Print Assumptions C19_cache_coherent.
 
-(* Noninterference.  FULL STATEMENT (false, see the two refutations below):
-     forall p1 p2 e r, snd (run p1 e r) = snd (run p2 e r)   for recipes without random functions.
-   Proved restriction: r uses no process-reading function (no unique id, no clock key), the
-   two process states are coherent (every reachable state is: C19_reachable_coherent), and the
-   run either does not consult the application's shared options dict or finds the same version
-   entry in it. *)
-Theorem C19_noninterference_partial :
+Theorem C19_clock_keys_not_cached :
+  forall (parse_d parse_dt : key -> option Z) e ver p s k,
+    is_clock_key k = true -> fst (step parse_d parse_dt e ver p s (ODatetime k)) = p.
+Proof. exact step_clock_untouched. Qed.
+Print Assumptions C19_clock_keys_not_cached.
+
+(* Noninterference, at full strength for the model of the repaired code: for the same inputs
+   (recipe, clock readings, application options) the outcome of a run is the same in any two
+   coherent process states (every reachable state is coherent: C19_reachable_coherent)
+     - for EVERY recipe, if the two states agree on the unique-id context counter;
+     - with no condition on the states at all, if the recipe draws no unique id.
+   The counter is the one piece of process state a run is MEANT to read (that is what keeps
+   unique ids distinct across runs, C19_uid_still_distinct).  Clock keys make the outcome
+   depend on the clock input [e], not on the process; the application's options dict is an
+   input too.  The earlier restrictions (no clock key, version_fixed) are gone with fixes
+   fc3a5e8 and d5304ed. *)
+Theorem C19_noninterference :
   forall (parse_d parse_dt : key -> option Z) p1 p2 e r,
     coherent parse_d parse_dt p1 -> coherent parse_d parse_dt p2 ->
-    no_proc_funcs r = true ->
-    (version_fixed e r = true \/ p_app_ver p1 = p_app_ver p2) ->
+    (no_uid r = true \/ p_uid p1 = p_uid p2) ->
     snd (run parse_d parse_dt p1 e r) = snd (run parse_d parse_dt p2 e r).
 Proof. exact noninterference. Qed.
-Print Assumptions C19_noninterference_partial.
+Print Assumptions C19_noninterference.
 
 Theorem C19_reachable_coherent :
   forall (parse_d parse_dt : key -> option Z) h, coherent parse_d parse_dt (after parse_d parse_dt h).
 Proof. exact after_coherent. Qed.
 Print Assumptions C19_reachable_coherent.
 
-(* The outcome of such a recipe is the same after any two histories of runs ... *)
-Theorem C19_sequence_independent_partial :
+(* The outcome of a recipe that draws no unique id is the same after any two histories ... *)
+Theorem C19_sequence_independent :
   forall (parse_d parse_dt : key -> option Z) h1 h2 e r,
-    no_proc_funcs r = true -> version_fixed e r = true ->
+    no_uid r = true ->
     snd (run parse_d parse_dt (after parse_d parse_dt h1) e r) =
     snd (run parse_d parse_dt (after parse_d parse_dt h2) e r).
 Proof. exact sequence_independent. Qed.
-Print Assumptions C19_sequence_independent_partial.
+Print Assumptions C19_sequence_independent.
 
 (* ... in particular it is what the recipe produces alone in a fresh process. *)
-Theorem C19_same_as_fresh_process_partial :
+Theorem C19_same_as_fresh_process :
   forall (parse_d parse_dt : key -> option Z) h e r,
-    no_proc_funcs r = true -> version_fixed e r = true ->
+    no_uid r = true ->
     snd (run parse_d parse_dt (after parse_d parse_dt h) e r) = snd (run parse_d parse_dt proc0 e r).
 Proof. exact same_as_fresh_process. Qed.
-Print Assumptions C19_same_as_fresh_process_partial.
+Print Assumptions C19_same_as_fresh_process.
 
-(* What any run — failing or not — leaves behind in the process: coherent caches, a counter
-   that did not go down, and the application's dict written in exactly one way. *)
+(* What any run - failing or not - leaves behind in the process: coherent caches and a counter
+   that did not go down. *)
 Theorem C19_run_effects :
   forall (parse_d parse_dt : key -> option Z) p e r,
     let p' := fst (run parse_d parse_dt p e r) in
-    (coherent parse_d parse_dt p -> coherent parse_d parse_dt p') /\
-    p_uid p <= p_uid p' /\
-    p_app_ver p' = match r_stage r with
-                   | SParseFail => p_app_ver p
-                   | _ => p_app_ver (write_app_ver p e r)
-                   end.
+    (coherent parse_d parse_dt p -> coherent parse_d parse_dt p') /\ p_uid p <= p_uid p'.
 Proof. exact run_effects. Qed.
 Print Assumptions C19_run_effects.
 
-(* A failed run does not poison the next one (r2 without process-reading functions; either r2
-   does not consult the shared options dict or the failing run was not given it). *)
-Theorem C19_failed_run_harmless_partial :
+(* A failed run does not poison the next one (r2 draws no unique id; with unique ids only the
+   contexts move on, by C19_noninterference). *)
+Theorem C19_failed_run_harmless :
   forall (parse_d parse_dt : key -> option Z) p e1 r1 e2 r2,
     coherent parse_d parse_dt p ->
     o_err (snd (run parse_d parse_dt p e1 r1)) <> None ->
-    no_proc_funcs r2 = true ->
-    (version_fixed e2 r2 = true \/ e_shared e1 = false) ->
+    no_uid r2 = true ->
     snd (run parse_d parse_dt (fst (run parse_d parse_dt p e1 r1)) e2 r2) =
     snd (run parse_d parse_dt p e2 r2).
 Proof. exact failed_run_harmless. Qed.
-Print Assumptions C19_failed_run_harmless_partial.
+Print Assumptions C19_failed_run_harmless.
 
 (* Ids start at 1 and are dense per table, whatever process state the run starts in
    (by construction: the IdManager belongs to the run). *)
@@ -134,42 +136,28 @@ Theorem C19_uid_values_distinct :
 Proof. exact uid_values_distinct. Qed.
 Print Assumptions C19_uid_values_distinct.
 
-(* REFUTED 1 (finding C19-clock-cached; witness corpus/C19/clock_cached.json).
-   parse_datetimespec caches the clock keys: `datetime: now` evaluated in a later run returns
-   the time of the FIRST run of the process that evaluated it.  The recipe below contains no
-   random function and no unique id, yet its outcome after a history differs from its outcome
-   in a fresh process. *)
-Theorem C19_refuted_clock_cached :
-  exists (h : list (env * recipe)) (e : env) (r : recipe),
-    existsb (fun o => match o with OUid _ => true | _ => false end) (r_ops r) = false /\
-    version_fixed e r = true /\
-    snd (run (fun _ => None) (fun _ => None) (after (fun _ => None) (fun _ => None) h) e r)
-    <> snd (run (fun _ => None) (fun _ => None) proc0 e r).
-Proof.
-  exists [(mkEnv 1 0 false, mkRecipe SExec None [ORow "A"; ODatetime "now"])],
-         (mkEnv 2 0 false), (mkRecipe SExec None [ORow "A"; ODatetime "now"]).
-  split; [reflexivity|]. split; [reflexivity|].
-  vm_compute. intros H. discriminate H.
-Qed.
-Print Assumptions C19_refuted_clock_cached.
+(* Regression for the repaired finding C19-clock-cached (fix fc3a5e8; witness
+   corpus/C19/clock_cached.json).  Before the fix parse_datetimespec cached the clock keys and the
+   second run below returned BVal 1, the time of the first run.  Now `datetime: now` returns the
+   clock reading of its own run, as in a fresh process. *)
+Example C19_regression_clock_not_cached :
+  let r := mkRecipe SExec None [ORow "A"; ODatetime "now"] in
+  let h := [(mkEnv 1 0 None, r)] in
+  snd (run (fun _ => None) (fun _ => None) (after (fun _ => None) (fun _ => None) h) (mkEnv 2 0 None) r)
+  = mkOut [BId "A" 1; BVal 2] None /\
+  snd (run (fun _ => None) (fun _ => None) proc0 (mkEnv 2 0 None) r) = mkOut [BId "A" 1; BVal 2] None.
+Proof. split; vm_compute; reflexivity. Qed.
 
-(* REFUTED 2 (finding C19-plugin-options-mutated; witness corpus/C19/shared_plugin_options.json).
-   `generate` writes the recipe's snowfakery_version into the caller's plugin_options dict.  An
-   application that passes the same non-empty dict to every run gets native-types mode in a
-   later recipe that declares no version — although the later recipe has no process-reading
-   function at all. *)
-Theorem C19_refuted_shared_plugin_options :
-  exists (h : list (env * recipe)) (e : env) (r : recipe),
-    no_proc_funcs r = true /\
-    snd (run (fun _ => None) (fun _ => None) (after (fun _ => None) (fun _ => None) h) e r)
-    <> snd (run (fun _ => None) (fun _ => None) proc0 e r).
-Proof.
-  exists [(mkEnv 1 0 true, mkRecipe SExec (Some 3) [ORow "A"])],
-         (mkEnv 2 0 true), (mkRecipe SExec None [ORow "A"; OVersion]).
-  split; [reflexivity|].
-  vm_compute. intros H. discriminate H.
-Qed.
-Print Assumptions C19_refuted_shared_plugin_options.
+(* Regression for the repaired finding C19-plugin-options-mutated (fix d5304ed; witness
+   corpus/C19/shared_plugin_options.json).  Before the fix a version-3 run wrote its version into
+   the application's options dict and the version-less recipe below ran in native-types mode
+   (BVersion 3).  Now the dict is an input that no run changes: version 2 again. *)
+Example C19_regression_options_not_written :
+  let h := [(mkEnv 1 0 None, mkRecipe SExec (Some 3) [ORow "A"])] in
+  snd (run (fun _ => None) (fun _ => None) (after (fun _ => None) (fun _ => None) h) (mkEnv 2 0 None)
+           (mkRecipe SExec None [ORow "A"; OVersion]))
+  = mkOut [BId "A" 1; BVersion 2] None.
+Proof. vm_compute. reflexivity. Qed.
 
 (* ---- non-vacuity: concrete runs ---- *)
 
@@ -183,7 +171,7 @@ Definition ex_fail : recipe :=
   mkRecipe SExec None [ORow "B"; OUid SlotNum; ODate "garbage"; ORow "B"].
 Definition ex_r2 : recipe :=
   mkRecipe SExec None [ORow "A"; ODate "2020-01-05"; OCounter "c" 5 1; ORow "P"; OLazy "P"].
-Definition ex_env (n : Z) : env := mkEnv n 0 false.
+Definition ex_env (n : Z) : env := mkEnv n 0 None.
 
 (* three runs back to back: ids restart at 1, the counter restarts at 5, contexts go on
    (1, 2 in the first run, 3 in the failing one), the failing run delivers no row *)
@@ -195,16 +183,16 @@ Example C19_ex_sequence :
     mkOut [BId "A" 1; BVal 7; BCount "c" 5; BId "P" 1; BLazy] None ].
 Proof. vm_compute. reflexivity. Qed.
 
-(* the hypotheses of the partial theorems are satisfiable, and the conclusion is about a
+(* the hypotheses of the theorems are satisfiable, and the conclusion is about a
    non-trivial outcome *)
 Example C19_ex_hypotheses :
-  no_proc_funcs ex_r2 = true /\ version_fixed (ex_env 3) ex_r2 = true /\
+  no_uid ex_r2 = true /\
   o_err (snd (run ex_parse ex_parse proc0 (ex_env 2) ex_fail)) <> None /\
   snd (run ex_parse ex_parse (after ex_parse ex_parse [(ex_env 1, ex_r1); (ex_env 2, ex_fail)])
            (ex_env 3) ex_r2)
   = mkOut [BId "A" 1; BVal 7; BCount "c" 5; BId "P" 1; BLazy] None.
 Proof.
-  split; [reflexivity|]. split; [reflexivity|]. split; [vm_compute; discriminate|].
+  split; [reflexivity|]. split; [vm_compute; discriminate|].
   vm_compute. reflexivity.
 Qed.
 
